@@ -464,6 +464,13 @@ impl GraphEngine {
             })
             .collect();
 
+        // Everything written above (property tree, blobs, statistics) must be durable before
+        // the manifest/checkpoint record allows recovery to skip the log.
+        {
+            let mut pager = self.pager.write().unwrap();
+            pager.sync()?;
+        }
+
         let system_txid = self.next_txid.fetch_add(1, Ordering::Relaxed);
         {
             let mut wal = self.wal.lock().unwrap();
